@@ -137,27 +137,59 @@ func c07(r *core.Run) {
 			continue
 		}
 		nest := core.Nest(fn)
-		var commits, directs, batchOps []ssa.CallInstruction
+		// an operation of the mutation: performed in fn (or a closure of it), or in a helper that was handed the batch
+		type mop struct {
+			call  ssa.CallInstruction
+			where ssa.Instruction // the instruction of fn's nest that stands for it (the call itself, or the helper call)
+			batch ssa.Value       // receiver, translated to the caller's value for helper operations
+			via   *helperBind
+		}
+		var commits, directs, batchOps []mop
 		hasDeleteRange := false
+		classify := func(in ssa.Instruction, hb *helperBind) {
+			c := core.CallOf(in)
+			if c == nil {
+				return
+			}
+			name := core.CalleeName(c)
+			m := mop{call: in.(ssa.CallInstruction), where: in, via: hb}
+			if len(c.Args) > 0 {
+				m.batch = c.Args[0]
+			}
+			if hb != nil {
+				m.where = hb.top
+				m.batch = hb.up(m.batch)
+			}
+			switch {
+			case strings.HasSuffix(name, ".Batch).Commit"):
+				commits = append(commits, m)
+			case pebbleDurable[name]:
+				directs = append(directs, m)
+			case pebbleBatchOps[name]:
+				batchOps = append(batchOps, m)
+				if strings.HasSuffix(name, "DeleteRange") {
+					hasDeleteRange = true
+				}
+			}
+		}
 		for _, f := range nest {
-			core.InstrsOf(f, func(in ssa.Instruction) {
-				c := core.CallOf(in)
-				if c == nil {
-					return
-				}
-				name := core.CalleeName(c)
-				switch {
-				case strings.HasSuffix(name, ".Batch).Commit"):
-					commits = append(commits, in.(ssa.CallInstruction))
-				case pebbleDurable[name]:
-					directs = append(directs, in.(ssa.CallInstruction))
-				case pebbleBatchOps[name]:
-					batchOps = append(batchOps, in.(ssa.CallInstruction))
-					if strings.HasSuffix(name, "DeleteRange") {
-						hasDeleteRange = true
-					}
-				}
-			})
+			core.InstrsOf(f, func(in ssa.Instruction) { classify(in, nil) })
+		}
+		isHelperOfOther := false
+		for _, pa := range fn.Params {
+			if isBatchPtr(pa.Type()) {
+				isHelperOfOther = true // judged as part of its callers
+			}
+		}
+		if isHelperOfOther {
+			continue
+		}
+		helpers := batchHelperCalls(p, fn)
+		for i := range helpers {
+			hb := &helpers[i]
+			for _, f := range core.Nest(hb.g) {
+				core.InstrsOf(f, func(in ssa.Instruction) { classify(in, hb) })
+			}
 		}
 		if len(commits)+len(directs) == 0 {
 			continue
@@ -165,22 +197,31 @@ func c07(r *core.Run) {
 		nMut++
 		fnm := core.FuncName(fn)
 		if hasDeleteRange {
-			c07Rebuild(r, fn, nest, commits, directs, batchOps)
+			var cs, ds, bs []ssa.CallInstruction
+			for _, m := range commits {
+				cs = append(cs, m.call)
+			}
+			for _, m := range directs {
+				ds = append(ds, m.call)
+			}
+			for _, m := range batchOps {
+				bs = append(bs, m.call)
+			}
+			c07Rebuild(r, fn, nest, cs, ds, bs)
 			continue
 		}
 		if len(commits) > 0 {
 			r.Check(len(directs) == 0, "C07.ONEBATCH", fnm+"#no-direct-write-next-to-batch", fn.Pos(), "all keyed writes of this mutation go through the batch", fmt.Sprintf("%d direct DB write(s) next to a batch commit: the mutation is not one atomic unit", len(directs)))
 			r.Check(len(commits) == 1, "C07.ONEBATCH", fnm+"#one-commit", fn.Pos(), "exactly one commit site", fmt.Sprintf("%d commit sites in one mutation", len(commits)))
 			for _, cm := range commits {
-				r.Check(core.LoopHeaderOf(cm.Block()) == nil && cm.Parent() == fn, "C07.ONEBATCH", fnm+"#commit-not-in-loop", cm.Pos(), "commit happens once per call", "the batch is committed inside a loop or closure: a crash between two commits leaves the mutation half-applied")
-				recv := cm.Common().Args[0]
+				r.Check(core.LoopHeaderOf(cm.where.Block()) == nil && cm.where.Parent() == fn, "C07.ONEBATCH", fnm+"#commit-not-in-loop", cm.call.Pos(), "commit happens once per call", "the batch is committed inside a loop or closure: a crash between two commits leaves the mutation half-applied")
 				for _, op := range batchOps {
-					same := op.Common().Args[0] == recv
-					r.Check(same, "C07.ONEBATCH", fnm+"#same-batch", op.Pos(), "keyed write goes to the batch that is committed", "a keyed write goes to a different batch than the one committed")
+					same := op.batch == cm.batch
+					r.Check(same, "C07.ONEBATCH", fnm+"#same-batch", op.call.Pos(), "keyed write goes to the batch that is committed", "a keyed write goes to a different batch than the one committed")
 				}
 			}
 		} else {
-			r.Check(len(directs) == 1 && core.LoopHeaderOf(directs[0].Block()) == nil, "C07.ONEBATCH", fnm+"#single-direct-write", directs[0].Pos(), "single-key mutation: exactly one direct synced write", fmt.Sprintf("%d direct DB writes (or a write in a loop) without a batch: a crash in between leaves a partial update", len(directs)))
+			r.Check(len(directs) == 1 && core.LoopHeaderOf(directs[0].where.Block()) == nil, "C07.ONEBATCH", fnm+"#single-direct-write", directs[0].call.Pos(), "single-key mutation: exactly one direct synced write", fmt.Sprintf("%d direct DB writes (or a write in a loop) without a batch: a crash in between leaves a partial update", len(directs)))
 		}
 	}
 	r.Floor("C07.ONEBATCH", "mutating functions of the embedded store", nMut, 6)
@@ -329,7 +370,7 @@ func c07Schema(r *core.Run) {
 					continue
 				}
 				op, x, y, neg, ok := core.Compare(ifi.Cond)
-				if !ok || neg || op != token.NEQ {
+				if !ok || (op != token.NEQ && op != token.EQL) {
 					continue
 				}
 				if s, isC := core.ConstString(y); !isC || s != "" {
@@ -339,9 +380,14 @@ func c07Schema(r *core.Run) {
 				if !isEx {
 					continue
 				}
+				// the edge taken when a version string is stored (non-empty), whichever way the test is written
+				nonEmpty := 0
+				if (op == token.EQL) != neg {
+					nonEmpty = 1
+				}
 				if call, isCall := ex.Tuple.(*ssa.Call); isCall {
 					if k, isK := core.ConstString(call.Call.Args[len(call.Call.Args)-1]); isK && k == key {
-						reach := core.ReachAvoiding(b.Succs[0], nil)
+						reach := core.ReachAvoiding(b.Succs[nonEmpty], nil)
 						absent = !reach[in.Block()]
 					}
 				}
@@ -398,29 +444,87 @@ func c07JSONSave(r *core.Run, rule string) {
 				{"(*os.File).Sync", "sync"},
 				{"(*os.File).Close", "close"},
 			}
-			var prev ssa.Instruction = tmp
-			for _, st := range steps {
-				var chosen *ssa.Call
-				for _, c := range find(st.name) {
-					// the checked instance: its error decides a branch and it dominates the rename
-					if st.name != "(*encoding/json.Encoder).Encode" && !isTmpFile(c.Call.Args[0]) {
+			// a step is either performed here or inside a helper that receives the temp file; for a helper the step
+			// must have succeeded on each of its error-free returns, and the helper's error must be checked here
+			type stepLoc struct {
+				f    *ssa.Function   // where the step is performed
+				call *ssa.Call       // the step
+				site ssa.Instruction // the instruction of fn that stands for it (the step itself or the helper call)
+			}
+			locate := func(name string, needTmp bool) *stepLoc {
+				for _, c := range find(name) {
+					if needTmp && !isTmpFile(c.Call.Args[0]) {
 						continue
 					}
 					if c.Block().Dominates(rn.Block()) || c.Block() == rn.Block() {
-						chosen = c
+						return &stepLoc{fn, c, c}
 					}
 				}
-				if chosen == nil {
+				var out *stepLoc
+				core.InstrsOf(fn, func(in ssa.Instruction) {
+					hc, ok := in.(*ssa.Call)
+					if !ok || out != nil {
+						return
+					}
+					g := core.StaticCallee(&hc.Call)
+					if g == nil || !p.IsProdFunc(g) || g.Blocks == nil || !(hc.Block().Dominates(rn.Block()) || hc.Block() == rn.Block()) {
+						return
+					}
+					rt := resultTypes(g)
+					if len(rt) != 1 || !isErrorType(rt[0]) {
+						return
+					}
+					for i, a := range hc.Call.Args {
+						if !isTmpFile(a) || i >= len(g.Params) {
+							continue
+						}
+						core.InstrsOf(g, func(in2 ssa.Instruction) {
+							c, ok := in2.(*ssa.Call)
+							if !ok || core.CalleeName(&c.Call) != name || out != nil {
+								return
+							}
+							if needTmp && c.Call.Args[0] != ssa.Value(g.Params[i]) {
+								return
+							}
+							cv := ssa.Value(c)
+							all := true
+							for _, ret := range core.Returns(g) {
+								if !core.IsNilConst(ret.Results[0]) {
+									continue
+								}
+								if ok1, n1, _ := core.MustPass(g, ret.Block(), core.NilGuard(func(x ssa.Value) bool { return x == cv })); !(ok1 && n1 > 0) {
+									all = false
+								}
+							}
+							if all {
+								out = &stepLoc{g, c, hc}
+							}
+						})
+					}
+				})
+				return out
+			}
+			prev := &stepLoc{fn, tmp, tmp}
+			for _, st := range steps {
+				loc := locate(st.name, st.name != "(*encoding/json.Encoder).Encode")
+				if loc == nil {
 					r.Fail(rule, fnm+"#"+st.label+"-before-rename", rn.Pos(), "no "+st.label+" of the temp file on every path to the rename")
 					continue
 				}
-				cv := ssa.Value(chosen)
+				cv := ssa.Value(loc.site.(*ssa.Call))
 				ok1, n1, p1 := core.MustPass(fn, rn.Block(), core.NilGuard(func(x ssa.Value) bool { return x == cv }))
-				r.Check(ok1 && n1 > 0, rule, fnm+"#"+st.label+"-checked", chosen.Pos(), st.label+" succeeded on every path to the rename", "the rename is reachable although "+st.label+" failed or was not checked ("+core.FmtPath(p1)+")")
-				r.Check(core.Precedes(prev, chosen), rule, fnm+"#"+st.label+"-order", chosen.Pos(), st.label+" in order", st.label+" does not follow the previous step on every path")
-				prev = chosen
+				r.Check(ok1 && n1 > 0, rule, fnm+"#"+st.label+"-checked", loc.call.Pos(), st.label+" succeeded on every path to the rename", "the rename is reachable although "+st.label+" failed or was not checked ("+core.FmtPath(p1)+")")
+				inOrder := false
+				switch {
+				case prev.f == loc.f:
+					inOrder = core.Precedes(prev.call, loc.call)
+				case prev.site != loc.site:
+					inOrder = core.Precedes(prev.site, loc.site)
+				}
+				r.Check(inOrder, rule, fnm+"#"+st.label+"-order", loc.call.Pos(), st.label+" in order", st.label+" does not follow the previous step on every path")
+				prev = loc
 			}
-			r.Check(core.Precedes(prev, rn.(ssa.Instruction)), rule, fnm+"#rename-last", rn.Pos(), "rename after close", "rename does not follow close")
+			r.Check(core.Precedes(prev.site, rn.(ssa.Instruction)), rule, fnm+"#rename-last", rn.Pos(), "rename after close", "rename does not follow close")
 			// nothing else touches the target before the rename
 			core.InstrsOf(fn, func(in ssa.Instruction) {
 				if core.IsCallTo(in, "os.WriteFile", "os.Create", "os.OpenFile", "os.Remove", "os.Truncate") {
